@@ -1,5 +1,6 @@
 (** Index containers: the model of [Storage<T> + IndexContainer<T>] and its contract. *)
 From FC Require Import Base.Res.
+From Coq Require Import NArith.
 Set Implicit Arguments.
 
 Record IC (T : Type) := {
@@ -8,13 +9,18 @@ Record IC (T : Type) := {
   ic_push : ic_st -> T -> ic_st;
   ic_index : ic_st -> nat -> res T;
   ic_len : ic_st -> nat;
+  ic_is_empty : ic_st -> bool;
+  ic_iter : ic_st -> res (list T);            (* walking [IndexContainer::iter] to the end *)
   ic_clear : ic_st -> ic_st;
+  ic_used : ic_st -> list N;                  (* used bytes per [heap_size] callback, in order *)
 }.
 
+(** [IndexContainer::extend]: every implementation pushes the items one by one (for [Vec] it is
+    [Extend::extend], which appends the same items). *)
+Definition ic_extend T (c : IC T) (s : ic_st c) (l : list T) : ic_st c := fold_left (ic_push c) l s.
+
 (** An index container represents exactly the sequence pushed into it. [ic_inv] is the
-    representation invariant (e.g. a stride has at least two steps). The logical model works on
-    unbounded numbers with the 2^64 comparisons written out; that machine arithmetic agrees with
-    it on machine-representable inputs is a separate statement (Index/Stride.v). *)
+    representation invariant (e.g. a stride has at least two steps). *)
 Class ICOk T (c : IC T) := {
   ic_inv : ic_st c -> Prop;
   ic_abs : ic_st c -> list T;
@@ -25,6 +31,8 @@ Class ICOk T (c : IC T) := {
   abs_index : forall s i, ic_inv s ->
      ic_index c s i = match nth_error (ic_abs s) i with Some x => Ok x | None => Panic end;
   abs_len : forall s, ic_inv s -> ic_len c s = length (ic_abs s);
+  abs_is_empty : forall s, ic_inv s -> ic_is_empty c s = match ic_abs s with [] => true | _ => false end;
+  abs_iter : forall s, ic_inv s -> ic_iter c s = Ok (ic_abs s);
   inv_clear : forall s, ic_inv (ic_clear c s);
   abs_clear : forall s, ic_abs (ic_clear c s) = [];
 }.
@@ -37,13 +45,70 @@ Proof.
   split; [assumption|]. rewrite Ha, abs_push, <- app_assoc by assumption. reflexivity.
 Qed.
 
-(** [Vec<T>] as an index container. *)
-Definition vec_ic (T : Type) : IC T := {|
+(** Every state reachable from the default by pushes and clears represents exactly the values
+    pushed since the last clear (the C05 statement for a generic container). *)
+Section Reach.
+  Context T (c : IC T) `{ICOk T c}.
+  Inductive icop := IPush (x : T) | IClear.
+  Definition ic_step (s : ic_st c) (o : icop) : ic_st c :=
+    match o with IPush x => ic_push c s x | IClear => ic_clear c s end.
+  Definition spec_step (l : list T) (o : icop) : list T :=
+    match o with IPush x => l ++ [x] | IClear => [] end.
+  Theorem ic_reachable ops : forall s, ic_inv s ->
+    ic_inv (fold_left ic_step ops s) /\
+    ic_abs (fold_left ic_step ops s) = fold_left spec_step ops (ic_abs s).
+  Proof.
+    induction ops as [|o ops IH]; intros s Hs; simpl; [auto|].
+    destruct o as [x|]; simpl.
+    - destruct (IH (ic_push c s x) (inv_push s x Hs)) as [Hi Ha]. split; [assumption|].
+      rewrite Ha, abs_push by assumption. reflexivity.
+    - destruct (IH (ic_clear c s) (inv_clear s)) as [Hi Ha]. split; [assumption|].
+      rewrite Ha, abs_clear. reflexivity.
+  Qed.
+End Reach.
+
+(** [Vec<T>] as an index container; [sz] is [size_of::<T>()]. *)
+Definition vec_ic (T : Type) (sz : N) : IC T := {|
   ic_st := list T; ic_default := []; ic_push := fun s x => s ++ [x];
   ic_index := fun s i => match nth_error s i with Some x => Ok x | None => Panic end;
-  ic_len := @length T; ic_clear := fun _ => [] |}.
+  ic_len := @length T;
+  ic_is_empty := fun s => match s with [] => true | _ => false end;
+  ic_iter := fun s => Ok s;
+  ic_clear := fun _ => [];
+  ic_used := fun s => [(N.of_nat (length s) * sz)%N] |}.
 
-#[export] Instance vec_ic_ok T : ICOk (vec_ic T).
+#[export] Instance vec_ic_ok T sz : ICOk (vec_ic T sz).
 Proof.
-  refine (@Build_ICOk T (vec_ic T) (fun _ => True) (fun s => s) _ _ _ _ _ _ _ _); simpl; auto.
+  refine (@Build_ICOk T (vec_ic T sz) (fun _ => True) (fun s => s) _ _ _ _ _ _ _ _ _ _); simpl; auto.
 Defined.
+
+(** Transport an index container along a bijection-like pair (used to store [nat] offsets in a
+    container of machine words). *)
+Section Via.
+  Variables (A B : Type) (f : B -> A) (g : A -> B).
+  Variable c : IC A.
+  Definition ic_via : IC B := {|
+    ic_st := ic_st c; ic_default := ic_default c;
+    ic_push := fun s x => ic_push c s (f x);
+    ic_index := fun s i => let* x := ic_index c s i in Ok (g x);
+    ic_len := ic_len c; ic_is_empty := ic_is_empty c;
+    ic_iter := fun s => let* l := ic_iter c s in Ok (map g l);
+    ic_clear := ic_clear c; ic_used := ic_used c |}.
+  Hypothesis gf : forall x, g (f x) = x.
+  Context `{ICOk A c}.
+  #[export] Instance ic_via_ok : ICOk ic_via.
+  Proof.
+    refine (@Build_ICOk B ic_via (@ic_inv A c _) (fun s : ic_st c => map g (@ic_abs A c _ s)) _ _ _ _ _ _ _ _ _ _); cbn.
+    - apply inv_default.
+    - rewrite abs_default. reflexivity.
+    - intros; apply inv_push; assumption.
+    - intros s x Hs. rewrite abs_push, map_app by assumption. cbn. rewrite gf. reflexivity.
+    - intros s i Hs. rewrite abs_index by assumption. rewrite nth_error_map.
+      destruct (nth_error (ic_abs s) i); reflexivity.
+    - intros s Hs. rewrite map_length. apply abs_len; assumption.
+    - intros s Hs. rewrite abs_is_empty by assumption. destruct (ic_abs s); reflexivity.
+    - intros s Hs. rewrite abs_iter by assumption. reflexivity.
+    - apply inv_clear.
+    - intros s. rewrite abs_clear. reflexivity.
+  Defined.
+End Via.
